@@ -201,6 +201,51 @@ PROPS = {
                 "whitespace / long operator names / redundant parentheses / constant spellings, 1 composition); results must be equal",
         "assumptions": EVAL_ASSUME,
     },
+    "C16": {
+        "module": "HctlProofs.Props.C16",
+        "theorems": ["Hctl.C16.bundle_roundtrip", "Hctl.C16.bdd_entry_reloads", "Hctl.C16.nonbdd_ignored",
+                     "Hctl.C16.empty_label_not_reloaded", "Hctl.C16.lines_unlines", "Hctl.C16.formulae_lines"],
+        "ks": ["k8"],
+        "spec_tied": ["k8"],
+        "full": False,
+        "not_proved": "partial by nature: the zip container, the file system, Bdd (de)serialisation and aeon printing/parsing are "
+                      "outside the model (round-trip hypothesis hrt); they are exercised by the K8 oracle on every run. Labels that are "
+                      "empty or end in '/' are written but not reloaded (cannot occur as names in formulae; see DESIGN.md)",
+        "rule": "K8: label->set maps (1-4 labels from 13 shapes incl. dotted, leading digit, non-ASCII; empty/full/random/colour-dependent "
+                "sets) x networks through aeon/bnet/sbml x formula lists; write -> read with a graph rebuilt from model.aeon; "
+                "entry names and formulae.txt vs the model; reloaded sets used as context",
+        "assumptions": ["deser (ser s) = s for lib-bdd's string format (checked by the oracle)",
+                        "labels are non-empty and contain no '/' (ValidLabel)"],
+    },
+    "C17": {
+        "module": "HctlProofs.Props.C17",
+        "theorems": ["Hctl.C17.mem_loadFormulae", "Hctl.C17.loadFormulae_order", "Hctl.C17.loadFormulae_idem", "Hctl.C17.trim_trim"],
+        "ks": ["k9"],
+        "spec_tied": ["k9"],
+        "bins": True,
+        "full": False,
+        "not_proved": "partial: only the formula-file loader is modelled and proved; that the tool's evaluation equals the library's is "
+                      "established by running the binary built from the working tree and comparing archive, counts and listed states "
+                      "with the library API in-process (testing); it follows in the model from C04 + C15",
+        "rule": "K9: loader on generated file layouts (comments, blanks, CRLF, NBSP, '#' after blanks) vs the model; process runs of the "
+                "binary: model formats aeon/bnet/sbml x 4 print options x with/without context archive, 9 error scenarios",
+        "assumptions": ["a context archive was written for a graph with the number of spare variable sets the tool will build"],
+    },
+    "C19": {
+        "module": "HctlProofs.Props.C19",
+        "theorems": ["Hctl.C19.explode_semantics", "Hctl.C19.flatten_semantics", "Hctl.C19.implicit_semantics",
+                     "Hctl.C19.explode_names_injective", "Hctl.C19.every_instantiation_induced", "Hctl.C19.flatten_family",
+                     "Hctl.C19.flatten_specified", "Hctl.C19.no_regulators_untouched"],
+        "ks": ["k10"],
+        "spec_tied": ["k10"],
+        "bins": True,
+        "full": True,
+        "rule": "K10: 8 hand-written + random aeon networks (2-3 variables; implicit functions of arity 0-3; explicit f/2, g/1, k/0, nested "
+                "and shared); the binary's stdout re-loaded as bnet; truth table of every target over (variables, fresh constants) vs "
+                "the model; oracle: family over the constants = family of instantiations of the input",
+        "assumptions": ["no existing variable or parameter is named like a generated constant (`<name>_<bits>`)",
+                        "aeon/bnet parsing and printing of lib-param-bn (modelled, not verified)"],
+    },
 }
 
 # what MANIFEST.json says per property
@@ -276,6 +321,26 @@ MANIFEST_TEXT.update({
                     "name. Oracle: results of rewritten texts (renaming, whitespace, parentheses, long names, constants) through the API.",
             "note": _FRONT_NOTE + " Whitespace/long-spelling invariance of the tokenizer is tied by correspondence, not proved.",
             "technique": "Lean 4 proof (corollaries of C05/C07) + differential correspondence check + rewrite oracle"},
+})
+
+_GLUE_NOTE = ("Trusted: Lean kernel, axioms {propext, Classical.choice, Quot.sound}, the correspondence harness, and the external "
+              "layers named in the evidence (zip, file system, BDD/network (de)serialisation, clap, process behaviour), which are "
+              "observed by the correspondence run, not modelled.")
+MANIFEST_TEXT.update({
+    "C16": {"text": "Lean theorems about the archive model: reading back the entries written for a label->set map yields exactly that map "
+                    "(valid labels; given the BDD string round trip), model.aeon/formulae.txt are never mistaken for sets, and line i of "
+                    "formulae.txt is formula i. Correspondence: the real zip entries and reload vs the model; oracle: set equality after "
+                    "reload on a graph rebuilt from the archived model, and reloaded sets used as wild-card context.",
+            "note": _GLUE_NOTE, "technique": "Lean 4 proof (list lemmas over a model of Path::extension/strip_suffix/lines) + differential correspondence check"},
+    "C17": {"text": "Lean theorems about the formula-file loader (what is kept, order, idempotence on its own output). The rest of the "
+                    "property is decided by running the binary built from the working tree and comparing archive, counts, listed states "
+                    "and error behaviour with the library in-process.",
+            "note": _GLUE_NOTE, "technique": "Lean 4 proof (loader) + differential correspondence check of the built binary against the library"},
+    "C19": {"text": "Lean theorems, full statement on the converter model: the flattened function under a valuation of the fresh constants "
+                    "equals the input under the induced instantiation, generated names are unambiguous, every instantiation is induced "
+                    "(so the family is exactly preserved), parameter-free functions are unchanged, unregulated variables untouched. "
+                    "Correspondence: truth tables of the binary's output vs the model; oracle: the two families as sets.",
+            "note": _GLUE_NOTE, "technique": "Lean 4 proof (mutual structural induction over the FnUpdate model) + differential correspondence check of the built binary"},
 })
 
 ALL_IDS = ["C%02d" % i for i in range(1, 21)]
